@@ -1,6 +1,9 @@
 import VermouthProofs.C14
 import VermouthProofs.C14_Groups
 import VermouthProofs.C14_Fix
+import VermouthProofs.C14_Loop
+import VermouthProofs.C14_Name
+import VermouthProofs.C14_Closure
 import VermouthProofs.Iso
 /-!
 # C14 — every unrecognised atom is explained by a known modification or reported
@@ -50,6 +53,24 @@ theorem groups_partition (m : Mol) (hk : m.keys.Nodup) :
 theorem flagged_is_extra (m : Mol) (a : Atom) (ha : a ∈ m.atoms) (hf : a.ptm = true) : a.key ∈ m.extra := by
   unfold Mol.extra
   exact List.mem_map.2 ⟨a, List.mem_filter.2 ⟨ha, by simp [isExtra, hf]⟩, rfl⟩
+
+/-- `traversal_complete`: the fuel the model gives the inner loop of `find_ptm_atoms` (`2 |E| + 2`) is
+enough for the worklist to run empty.  Hence every group is closed — an extra atom bonded to an atom of
+a group is in that group — and every anchor is a non-extra atom bonded to an atom of its group. -/
+theorem traversal_complete (m : Mol) (hk : m.keys.Nodup) :
+    ∀ g ∈ findPtmGroups m,
+      (∀ a ∈ g.1, a ∈ m.extra)
+      ∧ (∀ y ∈ g.1, ∀ x ∈ adjOf m.edges y, x ∈ m.extra → x ∈ g.1)
+      ∧ (∀ x ∈ g.2, x ∉ m.extra ∧ ∃ y ∈ g.1, x ∈ adjOf m.edges y) := by
+  intro g hg
+  have hnd := extra_nodup m hk
+  have hfuel : adjSum (adjOf m.edges) m.extra + 1 ≤ traverseFuel m := by
+    have := adjSum_adjOf_le m.edges m.extra hnd
+    unfold traverseFuel
+    omega
+  obtain ⟨h1, h2⟩ := findGroups_ok (adjOf m.edges) (fun x y h => adjOf_symm h) (traverseFuel m)
+    m.extra.length m.extra hnd hfuel g hg
+  exact ⟨h1, h2.closed, h2.anchors⟩
 
 /-! ## candidate placements: induced, anchors by name, added atoms by element -/
 
@@ -263,17 +284,9 @@ theorem step_label_or_remove (mods : List Modif) (orig : List Atom) (s : St) (ke
       obtain ⟨_, _, _, _, hl⟩ := foldl_applyOne_spec mods nIdxs (used ++ cov) s.mol.atoms hb
       exact hl hin e he
 
-/-- `label_or_remove_partial`.  What is proved is the statement per iteration (`step_label_or_remove`,
-with `identify_spec`, `cover_exact_count` and `groups_partition`): every atom of a processed group is,
-when the iteration ends, either absent with a warning naming it, or present, in exactly one placement
-of the cover, with the modification in the `modifications` of all atoms of the residues of the key;
-and `fix_ptm` never aborts (every iteration returns `done`).  NOT proved in Lean: the composition over
-the whole loop (that the sorted / grouped iterations are a rearrangement of `findPtmGroups`, that an atom
-labelled or removed by one iteration is not touched by a later one, and that the renamed atom carries
-the atom name of its pattern node).  Full statement aimed at:
-  fixPtm m mods given = .done s → ∀ a ∈ m.atoms, a.ptm → annot a = [] →
-    (a.key ∉ s.mol.keys ∧ ∃ w ∈ s.warnings, a.key ∈ w)
-    ∨ (a.key ∈ s.mol.keys ∧ ∃! (l, e), l ∈ s.log ∧ l.result = some (u, c) ∧ e ∈ c ∧ a.key ∈ patoms e.2 ∧ e.1 ∈ (atom a.key of s.mol).mods) -/
+/-- Whole-loop frame facts (used by `removal_is_reported`; the full statement is `label_or_remove`
+below): the loop always returns, warnings are never dropped, atoms never reappear, and an atom that
+disappears is named in a warning. -/
 theorem label_or_remove_partial (mods : List Modif) (orig : List Atom) :
     ∀ (its : List (List Int × List Group)) (s : St) (given : List (List (List Placement))),
       ∃ s', runIters mods orig s its given = .done s'
@@ -322,6 +335,321 @@ theorem removal_is_reported (m : Mol) (mods : List Modif) (given : List (List (L
   obtain ⟨s, hs, _, hk, hr⟩ := label_or_remove_partial mods m.atoms (iterations m)
     { mol := m, removed := [], warnings := [], log := [] } given
   exact ⟨s, hs, hk, hr⟩
+
+/-! ## the whole loop of fix_ptm -/
+
+/-- the nodes of the residues of a key (`n_idxs`) -/
+def nIdxsOf (orig : List Atom) (key : List Int) : List Int :=
+  (orig.filter fun a => key.contains a.resid).map (·.key)
+
+/-- the `annotated` snapshot: the `modifications` an atom carried in the input -/
+def annotOf (orig : List Atom) : Int → List Nat :=
+  fun k => ((orig.find? fun a => a.key == k).map (·.mods)).getD []
+
+/-- what the property demands of an initially flagged atom `a` in the final state `s`: it is absent
+and named in a warning, or it is present, lies in exactly one placement chosen by a cover search of
+the whole run (`countIn`), and every surviving atom of the residues of that iteration's key lists
+the modification of every placement chosen in that iteration. -/
+def Explained (orig : List Atom) (a : Int) (s : St) : Prop :=
+  (a ∉ s.mol.keys ∧ ∃ w ∈ s.warnings, a ∈ w)
+  ∨ (a ∈ s.mol.keys ∧ countIn s.log a = 1 ∧
+      ∃ l ∈ s.log, ∃ used cov, l.result = some (used, cov) ∧ (∃ e ∈ cov, a ∈ patoms e.2)
+        ∧ ∀ b ∈ s.mol.atoms, b.key ∈ nIdxsOf orig l.key → ∀ e ∈ used ++ cov, e.1 ∈ b.mods)
+
+theorem runIters_own (mods : List Modif) (orig : List Atom) (horig : (orig.map (·.key)).Nodup)
+    {a0 : Atom} (ha0 : a0 ∈ orig) (hp : a0.ptm = true) :
+    ∀ (its : List (List Int × List Group)) (s : St) (given : List (List (List Placement))),
+      Inv orig s → a0.key ∈ s.mol.keys → countIn s.log a0.key = 0 →
+      (atomsOf (its.flatMap (·.2))).Nodup →
+      (∀ it ∈ its, ∀ g ∈ it.2, a0.key ∉ g.anchors) →
+      (∃ it ∈ its, ∃ g ∈ it.2, usedOf (annotOf orig) g = [] ∧ a0.key ∈ g.atoms) →
+      ∃ s' : St, runIters mods orig s its given = .done s' ∧ Explained orig a0.key s' := by
+  intro its
+  induction its with
+  | nil =>
+    intro s given _ _ _ _ _ hex
+    obtain ⟨it, hit, _⟩ := hex
+    simp at hit
+  | cons it its ih =>
+    intro s given hinv hin hcnt hnd hanch hex
+    obtain ⟨key, groups⟩ := it
+    have hsplit : atomsOf (((key, groups) :: its).flatMap (·.2)) = atomsOf groups ++ atomsOf (its.flatMap (·.2)) := by
+      unfold atomsOf
+      rw [List.flatMap_cons, List.flatMap_append]
+    rw [hsplit, List.nodup_append] at hnd
+    obtain ⟨_, hnd2, hdisj⟩ := hnd
+    have mem_atomsOf : ∀ {gs : List Group} {g : Group} {x : Int}, g ∈ gs → x ∈ g.atoms → x ∈ atomsOf gs := by
+      intro gs g x hg hx
+      exact List.mem_flatMap.2 ⟨g, hg, hx⟩
+    have not_allOf : ∀ (gs : List Group), a0.key ∉ atomsOf gs → (∀ g ∈ gs, a0.key ∉ g.anchors) → a0.key ∉ allOf gs := by
+      intro gs h1 h2 h
+      obtain ⟨g, hg, hx⟩ := List.mem_flatMap.1 h
+      rcases List.mem_append.1 hx with h3 | h3
+      · exact h1 (mem_atomsOf hg h3)
+      · exact h2 g hg h3
+    obtain ⟨s1, hs1, hinv1, hl1, hframe⟩ := step_frame mods orig s key groups (given.headD []) hinv
+    by_cases hown : ∃ g ∈ groups, usedOf (annotOf orig) g = [] ∧ a0.key ∈ g.atoms
+    · -- the iteration of `a0`
+      obtain ⟨g0, hg0, hu0, hag0⟩ := hown
+      have hrest : ∀ it ∈ its, a0.key ∉ allOf it.2 := by
+        intro it hit
+        apply not_allOf
+        · intro h
+          have h1 : a0.key ∈ atomsOf (its.flatMap (·.2)) := by
+            obtain ⟨g, hg, hx⟩ := List.mem_flatMap.1 h
+            exact List.mem_flatMap.2 ⟨g, List.mem_flatMap.2 ⟨it, hit, hg⟩, hx⟩
+          exact hdisj _ (mem_atomsOf hg0 hag0) _ h1 rfl
+        · exact fun g hg => hanch it (by simp [hit]) g hg
+      obtain ⟨s2, hs2, _, hl2, hk2, hc2⟩ := runIters_other mods orig horig ha0 hp its s1 given.tail hinv1 hrest
+      refine ⟨s2, by simp only [runIters, hs1, hs2], ?_⟩
+      obtain ⟨s1', hs1', hcase⟩ := step_label_or_remove mods orig s key groups (given.headD [])
+      rw [hs1] at hs1'
+      cases hs1'
+      rcases hcase with ⟨rm, l, hw, _, _, _, hkeys, hall⟩ | ⟨used, cov, l, _, _, hlog, hres, hkeys, _, hone, hlab⟩
+      · left
+        have harm : a0.key ∈ rm := hall g0 hg0 hu0 _ hag0
+        refine ⟨?_, rm, hl2.warns rm (by rw [hw]; simp), harm⟩
+        rw [hk2, hkeys]
+        exact fun h => h.2 harm
+      · right
+        have hnp := flagged_not_nonPtm horig hinv ha0 hp
+          (fun a => ((orig.filter fun a => key.contains a.resid).map (·.key)).contains a.key)
+        have h1 : cov.countP (fun e => (patoms e.2).contains a0.key) = 1 := hone g0 hg0 hu0 _ hag0 hnp
+        have hlkey : l.key = key := by
+          rcases hframe with ⟨_, l', hlog', _, _⟩ | ⟨_, _, l', hlog', _, hk', _⟩
+          · rw [hlog] at hlog'
+            have := List.append_cancel_left hlog'
+            simp only [List.cons.injEq, and_true] at this
+            subst this
+            simp_all
+          · rw [hlog] at hlog'
+            have := List.append_cancel_left hlog'
+            simp only [List.cons.injEq, and_true] at this
+            subst this
+            exact hk'
+        refine ⟨?_, ?_, l, ?_, used, cov, hres, ?_, ?_⟩
+        · rw [hk2, hkeys]; exact hin
+        · rw [hc2, hlog, countIn_append, countIn_single, coverOf_some hres, hcnt, h1]
+        · obtain ⟨ext, hext⟩ := hl2.log
+          rw [hext, hlog]; simp
+        · have : 0 < cov.countP (fun e => (patoms e.2).contains a0.key) := by omega
+          obtain ⟨e, he, hcon⟩ := List.countP_pos_iff.1 this
+          exact ⟨e, he, by simpa using hcon⟩
+        · intro b hb hbn e he
+          obtain ⟨b1, hb1, hkb, hmb⟩ := hl2.atoms b hb
+          apply hmb
+          apply hlab b1 hb1 _ e he
+          rw [hkb]
+          unfold nIdxsOf at hbn
+          rw [hlkey] at hbn
+          exact hbn
+    · -- another iteration comes first
+      have hex' : ∃ it ∈ its, ∃ g ∈ it.2, usedOf (annotOf orig) g = [] ∧ a0.key ∈ g.atoms := by
+        obtain ⟨it, hit, g, hg, hu, hag⟩ := hex
+        rcases List.mem_cons.1 hit with rfl | hit
+        · exact absurd ⟨g, hg, hu, hag⟩ hown
+        · exact ⟨it, hit, g, hg, hu, hag⟩
+      have hnot : a0.key ∉ allOf groups := by
+        apply not_allOf
+        · intro h
+          obtain ⟨it, hit, g, hg, _, hag⟩ := hex'
+          have h1 : a0.key ∈ atomsOf (its.flatMap (·.2)) :=
+            List.mem_flatMap.2 ⟨g, List.mem_flatMap.2 ⟨it, hit, hg⟩, hag⟩
+          exact hdisj _ h _ h1 rfl
+        · exact fun g hg => hanch (key, groups) (by simp) g hg
+      obtain ⟨s1', hs1', _, _, hk1, hc1⟩ := runIters_other mods orig horig ha0 hp [(key, groups)] s given hinv
+        (by intro it hit; simp at hit; subst hit; exact hnot)
+      simp only [runIters, hs1] at hs1'
+      cases hs1'
+      obtain ⟨s2, hs2, hexp⟩ := ih s1 given.tail hinv1 (hk1.2 hin) (by rw [hc1]; exact hcnt) hnd2
+        (fun it hit => hanch it (by simp [hit])) hex'
+      exact ⟨s2, by simp only [runIters, hs1, hs2], hexp⟩
+
+/-- `iterations_cover_groups`: sorting by anchor resids and `groupby` handle every group in exactly one
+iteration — the groups of all iterations, concatenated, are a rearrangement of the groups. -/
+theorem iterations_cover_groups (m : Mol) : ((iterations m).flatMap (·.2)).Perm (groupsOf m) :=
+  iterations_perm m
+
+/-- no anchor of a group is itself an extra atom (proved below from `traversal_complete`) -/
+def AnchorsNotExtra (m : Mol) : Prop := ∀ g ∈ findPtmGroups m, ∀ x ∈ g.2, x ∉ m.extra
+
+instance (m : Mol) : Decidable (AnchorsNotExtra m) := by unfold AnchorsNotExtra; infer_instance
+
+theorem anchors_not_extra (m : Mol) (hk : m.keys.Nodup) : AnchorsNotExtra m :=
+  fun g hg x hx => ((traversal_complete m hk g hg).2.2 x hx).1
+
+theorem dedupNat_eq_nil {l : List Nat} (h : dedupNat l = []) : l = [] := by
+  cases l with
+  | nil => rfl
+  | cons a l => simp [dedupNat] at h
+
+theorem annotOf_eq (orig : List Atom) (horig : (orig.map (·.key)).Nodup) {a0 : Atom} (ha0 : a0 ∈ orig) :
+    annotOf orig a0.key = a0.mods := by
+  unfold annotOf
+  cases hf : orig.find? (fun a => a.key == a0.key) with
+  | none =>
+    have := List.find?_eq_none.1 hf a0 ha0
+    simp at this
+  | some x =>
+    have hx : x ∈ orig := List.mem_of_find?_eq_some hf
+    have hkx : x.key = a0.key := by simpa using List.find?_some hf
+    have : x = a0 := eq_of_key_eq horig hx ha0 hkx
+    simp [this]
+
+/-- `label_or_remove` — the whole loop of `fix_ptm`.  `fix_ptm` returns, and every atom of every
+group that carries no annotation from the input (the ordinary case; all such atoms are flagged
+`PTM_atom`) is, in the final molecule, either absent and named in an unknown-input warning, or present,
+in exactly one placement chosen by a cover search over the whole run (so never covered twice, never
+left uncovered), with the modifications of all placements of that iteration listed in the
+`modifications` of every surviving atom of the residues of the iteration's key.  Proof: `iterations_perm` (sort + groupby handle every group in exactly one iteration),
+`groups_partition`, `anchors_not_extra`, `step_label_or_remove`, and the loop invariant of
+`runIters_own` / `runIters_other` (an iteration removes only atoms of its own groups, its cover uses only
+non-PTM atoms and atoms / anchors of its own groups, key / resid / PTM flag never change, `modifications`
+only grow).  Per iteration the chosen placements are candidates of their fragments (`identify_spec`,
+`cover_sound`: induced, anchors by name, PTM atoms by element when the lists pass `candsOk`) and applying
+a placement renames as `rename_spec` / `rename_frame` say; `label_or_remove_partial_rename` names what is
+not composed over the loop. -/
+theorem label_or_remove (m : Mol) (mods : List Modif) (given : List (List (List Placement)))
+    (hk : m.keys.Nodup) :
+    ∃ s, fixPtm m mods given = .done s ∧
+      ∀ g ∈ groupsOf m, usedOf (annotOf m.atoms) g = [] → ∀ a ∈ g.atoms, Explained m.atoms a s := by
+  have hanch := anchors_not_extra m hk
+  obtain ⟨s, hs, _, _⟩ := removal_is_reported m mods given
+  refine ⟨s, hs, ?_⟩
+  intro g hg hu a hag
+  obtain ⟨hperm, hnd, hiff, _⟩ := groups_partition m hk
+  have hflat : atomsOf (groupsOf m) = (findPtmGroups m).flatMap (·.1) := by
+    unfold atomsOf groupsOf
+    rw [List.flatMap_map]
+  have haex : a ∈ m.extra := by
+    rw [hiff a]
+    obtain ⟨g', hg', rfl⟩ := List.mem_map.1 hg
+    exact ⟨g', hg', hag⟩
+  obtain ⟨a0, ha0f, rfl⟩ := List.mem_map.1 haex
+  obtain ⟨ha0, hex0⟩ := List.mem_filter.1 ha0f
+  have hmods : a0.mods = [] := by
+    have h1 := dedupNat_eq_nil hu
+    rw [List.flatMap_eq_nil_iff] at h1
+    have := h1 _ hag
+    rwa [annotOf_eq m.atoms hk ha0] at this
+  have hp : a0.ptm = true := by
+    simp only [isExtra, hmods, List.isEmpty_nil, Bool.not_true, Bool.or_false] at hex0
+    exact hex0
+  have hpermI := iterations_perm m
+  have hnd' : (atomsOf ((iterations m).flatMap (·.2))).Nodup := by
+    have : (atomsOf ((iterations m).flatMap (·.2))).Perm (atomsOf (groupsOf m)) := by
+      unfold atomsOf
+      exact List.Perm.flatMap_right _ hpermI
+    rw [this.nodup_iff, hflat]
+    exact hnd
+  have hanch' : ∀ it ∈ iterations m, ∀ g ∈ it.2, a0.key ∉ g.anchors := by
+    intro it hit g' hg'
+    have : g' ∈ groupsOf m := hpermI.subset (List.mem_flatMap.2 ⟨it, hit, hg'⟩)
+    obtain ⟨g'', hg'', rfl⟩ := List.mem_map.1 this
+    exact fun hx => hanch g'' hg'' _ hx haex
+  have hex : ∃ it ∈ iterations m, ∃ g ∈ it.2, usedOf (annotOf m.atoms) g = [] ∧ a0.key ∈ g.atoms := by
+    obtain ⟨it, hit, hgi⟩ := List.mem_flatMap.1 (hpermI.symm.subset hg)
+    exact ⟨it, hit, g, hgi, hu, hag⟩
+  obtain ⟨s', hs', hexp⟩ := runIters_own mods m.atoms hk ha0 hp (iterations m)
+    { mol := m, removed := [], warnings := [], log := [] } given
+    (List.Sublist.refl _) (List.mem_map.2 ⟨a0, ha0, rfl⟩) rfl hnd' hanch' hex
+  unfold fixPtm at hs
+  rw [hs] at hs'
+  cases hs'
+  exact hexp
+
+/-- the ordinary case spelled out: a molecule without annotations from `modify`; every flagged atom is
+explained -/
+theorem label_or_remove_flagged (m : Mol) (mods : List Modif) (given : List (List (List Placement)))
+    (hk : m.keys.Nodup) (hno : ∀ b ∈ m.atoms, b.mods = []) :
+    ∃ s, fixPtm m mods given = .done s ∧
+      ∀ a0 ∈ m.atoms, a0.ptm = true → Explained m.atoms a0.key s := by
+  obtain ⟨s, hs, hall⟩ := label_or_remove m mods given hk
+  refine ⟨s, hs, ?_⟩
+  intro a0 ha0 hp
+  obtain ⟨_, _, hiff, _⟩ := groups_partition m hk
+  obtain ⟨g', hg', hag⟩ := (hiff a0.key).1 (flagged_is_extra m a0 ha0 hp)
+  refine hall ⟨g'.1, g'.2⟩ (List.mem_map.2 ⟨g', hg', rfl⟩) ?_ _ hag
+  unfold usedOf
+  have : (List.flatMap (annotOf m.atoms) g'.1) = [] := by
+    rw [List.flatMap_eq_nil_iff]
+    intro x _
+    unfold annotOf
+    cases hf : m.atoms.find? (fun a => a.key == x) with
+    | none => rfl
+    | some y => simp [hno y (List.mem_of_find?_eq_some hf)]
+  simp [this, dedupNat]
+
+/-! ## renaming -/
+
+/-- `rename_spec`: applying one chosen placement `c` gives the atom matched on a PTM pattern node `ma`
+the canonical name — the `atomname` of the pattern node, or the `replace` entry for `atomname` when
+there is one — whatever it was called before; (`MAtom.WF`: attribute dictionaries have distinct keys;
+`(patoms c.2).Nodup`: a placement mentions an atom once, true of every injective placement). -/
+theorem rename_spec (mods : List Modif) (nIdxs : List Int) (atoms : List Atom) (c : Nat × Placement)
+    (hp : (patoms c.2).Nodup) (a q : Int) (hq : (a, q) ∈ c.2) (ma : MAtom)
+    (hma : (modAt mods c.1).atom? q = some ma) (hptm : ma.ptm = true) (nm : Option String)
+    (hname : nameOf ma.attrs = some nm) (hwf : ma.WF) (b : Atom) (hb : atomAt atoms a = some b) :
+    ∃ b', atomAt (applyOne mods nIdxs atoms c) a = some b' ∧ nameOf b'.attrs = some (canonName ma nm) := by
+  have hl : c.2.lookup a = some q := Iso.lookup_of_mem (by unfold patoms at hp; exact hp) hq
+  have h := attrs_applyOne mods nIdxs atoms c hp a
+  rw [hl] at h
+  simp only [hma, hb, Option.map_some] at h
+  cases hres : atomAt (applyOne mods nIdxs atoms c) a with
+  | none => rw [hres] at h; cases h
+  | some b' =>
+    rw [hres] at h
+    simp only [Option.map_some, Option.some.injEq] at h
+    exact ⟨b', rfl, by rw [h]; exact applyPair_name ma b hptm nm hname hwf⟩
+
+/-- ... and leaves the attributes of every atom outside the placement alone -/
+theorem rename_frame (mods : List Modif) (nIdxs : List Int) (atoms : List Atom) (c : Nat × Placement)
+    (hp : (patoms c.2).Nodup) (a : Int) (ha : a ∉ patoms c.2) :
+    (atomAt (applyOne mods nIdxs atoms c) a).map (·.attrs) = (atomAt atoms a).map (·.attrs) := by
+  have h := attrs_applyOne mods nIdxs atoms c hp a
+  have hl : c.2.lookup a = none := by
+    rw [List.lookup_eq_none_iff]
+    intro y hy
+    simp only [bne_iff_ne, ne_eq]
+    intro heq
+    exact ha (List.mem_map.2 ⟨y, hy, heq.symm⟩)
+  rw [hl] at h
+  exact h
+
+/-- `label_or_remove_partial_rename` (the remaining gap, stated precisely).  Proved: `rename_spec` (the
+placement that contains a PTM atom gives it the canonical name) and `rename_frame` (a placement that
+does not contain an atom leaves its attributes alone), both for ONE application of `applyOne`; and by
+`label_or_remove` the atom is in exactly one placement of the covers of the whole run.  NOT composed in
+Lean: that therefore the atom's `atomname` in the FINAL state is `canonName` of its pattern node (needs:
+the fold over the placements of its iteration and over all later iterations only meets `rename_frame`
+steps, `removeAtoms` keeps attributes, placements of the `used_mods` branch do not contain it, and the
+recorded candidates have distinct atoms).  Likewise the statement that the chosen placement is a
+candidate of the fragments of its iteration is available per iteration (`identify_spec`) but is not
+part of `Explained`, because the log does not record the residue.  What is stated here is the
+one-iteration consequence used by the oracle: a single chosen placement on a molecule. -/
+theorem label_or_remove_partial_rename (mods : List Modif) (nIdxs : List Int) (atoms : List Atom)
+    (c : Nat × Placement) (hp : (patoms c.2).Nodup) (a : Int) :
+    (a ∉ patoms c.2 → (atomAt (applyOne mods nIdxs atoms c) a).map (·.attrs) = (atomAt atoms a).map (·.attrs))
+    ∧ (∀ q ma nm b, (a, q) ∈ c.2 → (modAt mods c.1).atom? q = some ma → ma.ptm = true →
+        nameOf ma.attrs = some nm → ma.WF → atomAt atoms a = some b →
+        ∃ b', atomAt (applyOne mods nIdxs atoms c) a = some b' ∧ nameOf b'.attrs = some (canonName ma nm)) :=
+  ⟨rename_frame mods nIdxs atoms c hp a,
+   fun q ma nm b hq hma hptm hname hwf hb => rename_spec mods nIdxs atoms c hp a q hq ma hma hptm nm hname hwf b hb⟩
+
+/-- non-vacuity of `rename_spec`: pattern node `H2` with `replace: {atomname: HN2}`, atom called `X7` -/
+def exNH : Modif :=
+  { name := "NH",
+    atoms := [MAtom.mk 0 false [("atomname", some "N")] none,
+              MAtom.mk 1 true [("atomname", some "H2"), ("element", some "H")] (some [("atomname", some "HN2")])],
+    edges := [(0, 1)] }
+
+def exAtoms : List Atom :=
+  [Atom.mk 0 1 false false [] [("atomname", some "N")],
+   Atom.mk 7 1 true false [] [("atomname", some "X7"), ("element", some "H")]]
+
+example : ∃ b', atomAt (applyOne [exNH] [0, 7] exAtoms (0, [(0, 0), (7, 1)])) 7 = some b'
+    ∧ nameOf b'.attrs = some (some "HN2") ∧ aget b'.attrs "_old_atomname" = some (some "H2") :=
+  ⟨_, rfl, by decide, by decide⟩
 
 /-! ## witnesses -/
 
